@@ -81,7 +81,9 @@ func c13Prop(c *sim.Case) {
 			o.Scopes = append(o.Scopes, c.Str("scope.s", scopeAlpha, 1, 8))
 		}
 	}
-	ownQ := sim.PickStr(c, "authq", "", "", "?tenant=a", "?a=b&c=d", "?", "?x=%20y&z=1", "?p=a+b", "?kc_idp_hint=g%26h")
+	ownQ := sim.PickStr(c, "authq", "", "", "?tenant=a", "?a=b&c=d", "?", "?x=%20y&z=1", "?p=a+b", "?kc_idp_hint=g%26h",
+		// pairs that net/url's ParseQuery refuses but that are a provider's own business: ';' inside a pair, a stray '%', a bare name
+		"?policy=a;b", "?hint=50%&ok=1", "?flag", "?a=1&a=2&b")
 	cbQ := sim.PickStr(c, "cbq", "", "", "", "?x=1", "?a=b&c=%2F")
 	target := genTarget(c, "target")
 	dropOpenID := sim.Bool(c, "no-openid-in-config")
@@ -137,10 +139,42 @@ func c13Prop(c *sim.Case) {
 		c.Violation("wrong-endpoint"+sigSfx, "Location %q does not point at the configured authorization endpoint %q", loc, w.Cfg.GetAuthorizationUri())
 	}
 	q, err := url.ParseQuery(u.RawQuery)
-	if err != nil {
+	own, oerr := url.ParseQuery(conf.RawQuery)
+	if err != nil && oerr == nil {
 		c.Violation("query-unparsable"+sigSfx, "query of Location %q does not parse: %v", loc, err)
 	}
-	own, _ := url.ParseQuery(conf.RawQuery)
+	if oerr != nil {
+		// the endpoint's own query holds a pair that the strict parser rejects as a whole query (';', a stray '%'):
+		// read pair by pair
+		q, own = url.Values(sim.ParsePairs(u.RawQuery)), url.Values(sim.ParsePairs(conf.RawQuery))
+	}
+	// "any query of its own retained": every pair of the configured query is still there as it was written
+	have := map[string]int{}
+	for _, pair := range strings.Split(u.RawQuery, "&") {
+		have[pair]++
+	}
+	for _, pair := range strings.Split(conf.RawQuery, "&") {
+		if pair == "" {
+			continue
+		}
+		k, v, hasEq := strings.Cut(pair, "=")
+		if have[pair] > 0 {
+			have[pair]--
+			continue
+		}
+		// an equivalent spelling of the same pair is as good (re-encoded escapes, '=' added to a bare name)
+		dk, e1 := url.QueryUnescape(k)
+		dv, e2 := url.QueryUnescape(v)
+		found := false
+		if e1 == nil && e2 == nil {
+			for _, got := range q[dk] {
+				found = found || got == dv
+			}
+		}
+		if !found {
+			c.Violation("own-query-lost"+sigSfx, "the authorization endpoint's own parameter %q (has '=': %v) is not in the Location %q", pair, hasEq, loc)
+		}
+	}
 	// what was stored for this session
 	var st *sim.StoreCall
 	for _, sc := range w.Store.Snapshot(first.StoreFrom) {
